@@ -101,7 +101,16 @@ class BaseRunner(metaclass=ABCMeta):
         if self._stopped.is_set():
             return
         # the loop exists independently of all runners, we can use it to shut down
-        closed = asyncio.run_coroutine_threadsafe(self.aclose(), self.asyncio_loop)
+        aclose = self.aclose()
+        try:
+            closed = asyncio.run_coroutine_threadsafe(aclose, self.asyncio_loop)
+        except RuntimeError:
+            aclose.close()
+            if not self.asyncio_loop.is_closed():
+                raise
+            # the loop ended after the check above, e.g. because another thread stopped
+            # the runners at the same time: there is nothing left to stop
+            return
         try:
             closed.result()
         except concurrent.futures.CancelledError:
